@@ -73,14 +73,22 @@ pub fn violation_text(v: (u32, usize, usize)) -> Option<String> {
     match v.0 {
         0 => None,
         V_INVALID_LAYOUT => Some(format!("allocator received an invalid layout: size={} align={} (size overflows isize)", v.1, v.2)),
-        V_DEALLOC_LAYOUT => Some(format!("dealloc with layout size={} but the block was allocated with size={}", v.1, v.2)),
-        V_REALLOC_LAYOUT => Some(format!("realloc with old layout size={} but the block was allocated with size={}", v.1, v.2)),
+        V_DEALLOC_LAYOUT => Some(format!("dealloc with layout {} but the block was allocated with {}", unpack_layout(v.1), unpack_layout(v.2))),
+        V_REALLOC_LAYOUT => Some(format!("realloc with old layout {} but the block was allocated with {}", unpack_layout(v.1), unpack_layout(v.2))),
         V_GUARD => Some(format!("guard zone of heap block (size {}) overwritten", v.1)),
         V_QUARANTINE_WRITE => Some(format!("freed heap block (size {}) written at byte {} after free", v.1, v.2)),
         V_DOUBLE_FREE => Some(format!("heap block freed twice / freed while quarantined (size {})", v.1)),
         V_ZERO_SIZE => Some(format!("allocator called with zero-size request (align {})", v.2)),
         _ => Some("allocator violation".to_string()),
     }
+}
+
+/// size and alignment of a layout in one word (allocated blocks are far below 2^56 bytes)
+fn pack_layout(size: usize, align: usize) -> usize {
+    (size & ((1 << 56) - 1)) | ((align.trailing_zeros() as usize) << 56)
+}
+fn unpack_layout(x: usize) -> String {
+    format!("size={} align={}", x & ((1 << 56) - 1), 1usize << (x >> 56))
 }
 
 #[inline]
@@ -187,7 +195,7 @@ unsafe fn tracked_free(i: usize, layout: Layout, code: u32) {
             return;
         }
         if layout.size() != r.size || layout.align() != r.align {
-            set_viol(code, layout.size(), r.size);
+            set_viol(code, pack_layout(layout.size(), layout.align()), pack_layout(r.size, r.align));
         }
         if !guards_ok(r) {
             set_viol(V_GUARD, r.size, 0);
